@@ -3,6 +3,9 @@ import CkbVerif.Lemmas.IndexerScan
 import CkbVerif.Lemmas.IndexerChain
 import CkbVerif.Lemmas.IndexerType
 import CkbVerif.Lemmas.IndexerHistory
+import CkbVerif.Lemmas.IndexerStep5
+import CkbVerif.Lemmas.IndexerRbS5
+import CkbVerif.Lemmas.IndexerRbPrune
 
 /-!
 # C18 — the indexer's answers equal filtering the chain's live cells and transactions
@@ -25,36 +28,39 @@ Proved here (all unbounded: any store, any block, any script):
 * `capacity_script_len_range_witness`, `tip_garbage_after_rollback_to_empty_witness` — Lean witnesses
   of the other two known deviations (known_findings.txt), both replayed on the real code.
 * `replay_step_created` / `replay_step_spent` / `replay_step_other` — what one `append` does to the
-  live-cell set (OutPoint rows): outputs of the block become live, live cells spent by a non-cellbase
-  input die, everything else is unchanged — i.e. the step of the direct replay of the chain.
+  live-cell set (OutPoint rows), SAME-BLOCK SPENDS INCLUDED (`WFAppend2`: an input may refer to an
+  output of an earlier transaction of the block): outputs of the block that are not spent later in
+  the block become live, cells spent by a non-cellbase input (live before, or created earlier in the
+  same block) are dead, everything else is unchanged — i.e. the step of the direct replay of the chain.
 * `answers_eq_filter_partial` — by induction over ANY chain of blocks, each well-formed for the store
-  it is appended to (`ChainOK`: distinct fresh tx ids, no input referring to a transaction of the same
-  block, …), with the automatic prune interleaved: the exact-mode live-cell scan by lock script
-  returns exactly the rows of the live cells (OutPoint rows = replayed live set) whose lock script is
-  the searched one, with their creation block number / tx index. PARTIAL: blocks WITHOUT same-block
-  spends; the transaction-history rows are not part of it.
+  it is appended to (`ChainOK2`: distinct fresh tx ids, inputs of the same block only to EARLIER
+  transactions, …; same-block spends included), with the automatic prune interleaved: the exact-mode
+  live-cell scan by lock script returns exactly the rows of the live cells (OutPoint rows = replayed
+  live set) whose lock script is the searched one, with their creation block number / tx index.
+  PARTIAL only in scope: exact mode, before ordering / limit / cursor / the cell filters.
 * `answers_eq_filter_type_partial` — the same for live cells by TYPE script.
 * `history_step_lock_partial` / `history_step_type_partial` — the Tx*Script rows of the appended
-  block's number are exactly the direct filter over that block: one `output` row per output under its
-  lock / type script, one `input` row per resolved input of a non-cellbase transaction under the
-  lock / type script of the cell it spends, each mapping to the transaction's id; together with
-  `append_keeps_history` (rows of other block numbers never change) this is "tx lists by script =
-  filter over the chain's tx history" by induction over appends. PARTIAL: no same-block spends.
-* `rollback_append_partial` — for ANY store `s` with unique keys and ANY block `b` that is well-formed
-  for `s` (`WFRollbackT`: distinct fresh tx ids, no rows of `b`'s number in `s`, header number above
-  every indexed header, the lock/type live-cell indexes of `s` consistent with its OutPoint rows, no
-  input referring to a transaction of the same block): `rollback (appendCore s b)` has EVERY row of
-  every family except ConsumedOutPoint (OutPoint, CellLockScript, CellTypeScript, TxLockScript,
-  TxTypeScript, TxHash, Header) equal to that of `s`, and the same tip. PARTIAL: blocks WITHOUT
-  same-block spends; `appendCore` (the automatic prune between append and rollback is not included).
+  block's number are exactly the direct filter over that block (same-block spends included): one
+  `output` row per output under its lock / type script, one `input` row per resolved input of a
+  non-cellbase transaction under the lock / type script of the cell it spends, each mapping to the
+  transaction's id; together with `append_keeps_history` (rows of other block numbers never change)
+  this is "tx lists by script = filter over the chain's tx history" by induction over appends.
+* `rollback_append_partial` — SAME-BLOCK SPENDS INCLUDED: for ANY store `s` with unique keys and ANY
+  block `b` that is well-formed for `s` (`WFRollback2`: distinct fresh tx ids, inputs referring to the
+  block's own transactions only refer to earlier ones, no rows of `b`'s number in `s`, header number
+  above every indexed header, the lock/type live-cell indexes of `s` consistent with its OutPoint
+  rows): `rollback (appendCore s b)` has EVERY row of every family except ConsumedOutPoint (OutPoint,
+  CellLockScript, CellTypeScript, TxLockScript, TxTypeScript, TxHash, Header) equal to that of `s`,
+  and the same tip (stated for `appendCore`, i.e. up to the commit).
+* `rollback_append_pruned_partial` — the same for the FULL `append` (automatic prune between append
+  and rollback, any `keep_num`): every ANSWER row (OutPoint, Cell*Script, Tx*Script) is restored.
+  PARTIAL: the tip / TxHash / Header rows after a rollback across a prune (retention) are not stated.
 * `answers_eq_filter_instance`, `rollback_append_instance` — sanity instances on one concrete
   two-block chain WITH a same-block spend (kernel evaluation).
 
 NOT proved in general (tested by the correspondence harness against an independent replay oracle):
-same-block spends in `answers_eq_filter` / `rollback_append` (there the put-then-delete ORDER inside
-one batch matters; all lemmas here are order-free: `get_commit_all_put` / `get_commit_all_del`, so
-`txsOps_shape` / `mem_Rtx` would have to be refined with positions); rollback after an intervening
-prune; prefix-mode answers
+the tip after a rollback across an intervening prune (retention `keep_num`); that `ChainOK2` / `WFRollback2` hold for every chain the
+node delivers (they are the harness's generator invariants); prefix-mode answers
 (see `prefix_search_overmatch_witness`), ordering / limit / cursor of the RPC layer.
 -/
 namespace CkbVerif.C18
@@ -231,35 +237,37 @@ theorem prefix_search_overmatch_witness :
 
 /-! ## the live-cell set follows the replay of the chain (blocks without same-block spends) -/
 
-/-- outputs of the appended block become live cells -/
-theorem replay_step_created (s : Store) (b : Block) (wf : WFAppend s b) (op : OutPoint) (c : Cell)
-    (hc : Created b op c) : get (appendCore s b) (.outPoint op) = some (.cell c) :=
-  outPoint_created s b wf op c hc
+/-- outputs of the appended block that no later transaction of the block spends become live cells -/
+theorem replay_step_created (s : Store) (b : Block) (wf : WFAppend2 s b) (op : OutPoint) (c : Cell)
+    (hc : Created b op c) (hns : ∀ c', ¬ Spent2 s b op c') :
+    get (appendCore s b) (.outPoint op) = some (.cell c) :=
+  outPoint_created2 wf op c hc hns
 
-/-- live cells spent by a non-cellbase input of the appended block die -/
-theorem replay_step_spent (s : Store) (b : Block) (wf : WFAppend s b) (op : OutPoint) (c : Cell)
-    (hs : SpentIn s b op c) : get (appendCore s b) (.outPoint op) = none :=
-  outPoint_spent s b wf op c hs
+/-- cells spent by a non-cellbase input of the appended block — live before, or created earlier in
+the SAME block — are dead -/
+theorem replay_step_spent (s : Store) (b : Block) (wf : WFAppend2 s b) (op : OutPoint) (c : Cell)
+    (hs : Spent2 s b op c) : get (appendCore s b) (.outPoint op) = none :=
+  outPoint_spent2 wf op c hs
 
 /-- every other out-point keeps its state -/
-theorem replay_step_other (s : Store) (b : Block) (wf : WFAppend s b) (op : OutPoint)
-    (hnc : ∀ c, ¬ Created b op c) (hns : ∀ c, ¬ SpentIn s b op c) :
+theorem replay_step_other (s : Store) (b : Block) (wf : WFAppend2 s b) (op : OutPoint)
+    (hnc : ∀ c, ¬ Created b op c) (hns : ∀ c, ¬ Spent2 s b op c) :
     get (appendCore s b) (.outPoint op) = get s (.outPoint op) :=
-  outPoint_other s b wf op hnc hns
+  outPoint_other2 wf op hnc hns
 
-/-- **answers_eq_filter** (PARTIAL: blocks without same-block spends; live cells by lock script,
-exact mode). After ANY chain of well-formed appends from the empty store (automatic prune included),
+/-- **answers_eq_filter** (PARTIAL: live cells by lock script, exact mode; same-block spends ARE
+covered). After ANY chain of well-formed appends from the empty store (automatic prune included),
 a CellLockScript row is returned by the exact-mode scan for `q` iff it is the row of a live cell
 (an OutPoint row, i.e. a cell of the replayed live set) whose lock script is `q`, created at that
 block number / tx index. Full statement: see the header comment. -/
 theorem answers_eq_filter_partial (keep interval : Nat) (blocks : List Block)
-    (ok : ChainOK keep interval [] blocks) (q sc : Script) (bn txi io t : Nat) :
+    (ok : ChainOK2 keep interval [] blocks) (q sc : Script) (bn txi io t : Nat) :
     ((Key.cellLock sc bn txi io, Val.tx t) ∈ scan (blocks.foldl (append keep interval) []) (cellPrefix true q) ∧
       (Key.cellLock sc bn txi io).bytes.length = (cellPrefix true q).length + 16) ↔
     (sc = q ∧ ∃ c : Cell, get (blocks.foldl (append keep interval) []) (.outPoint ⟨t, io⟩) = some (.cell c) ∧
       c.out.lock = q ∧ c.bn = bn ∧ c.txIdx = txi) := by
   have hnd := nodup_chain keep interval blocks [] trivial
-  have hinv := lockInv_chain keep interval blocks [] lockInv_empty ok
+  have hinv := lockInv_chain2 keep interval blocks [] lockInv_empty ok
   rw [exact_search_cells, mem_iff_get _ hnd, hinv sc bn txi io t]
   constructor
   · rintro ⟨⟨c, hc, hl, hb, ht⟩, rfl⟩
@@ -267,24 +275,28 @@ theorem answers_eq_filter_partial (keep interval : Nat) (blocks : List Block)
   · rintro ⟨rfl, c, hc, hl, hb, ht⟩
     exact ⟨⟨c, hc, hl, hb, ht⟩, rfl⟩
 
-/-- `ChainOK` is satisfiable by a non-trivial chain: block 1 spends an output of block 0 and creates
-two cells, block 2 spends one of them -/
-example : ChainOK 1 1 []
+/-- `ChainOK2` is satisfiable by a non-trivial chain: block 1 spends an output of block 0, creates
+two cells, spends one of them again in the SAME block (tx 4) and that one again (tx 5); block 2
+spends a cell of block 1 -/
+example : ChainOK2 1 1 []
     [ ⟨0, 10, [⟨1, [⟨0, 4294967295⟩], [⟨1000, ⟨1, [1]⟩, none, []⟩]⟩]⟩,
-      ⟨1, 11, [⟨2, [⟨0, 4294967295⟩], []⟩, ⟨3, [⟨1, 0⟩], [⟨100, ⟨1, [1]⟩, some ⟨2, [5]⟩, [7]⟩, ⟨250, ⟨1, [1, 2]⟩, none, []⟩]⟩]⟩,
-      ⟨2, 12, [⟨4, [⟨0, 4294967295⟩], [⟨5, ⟨1, [1]⟩, none, []⟩]⟩, ⟨5, [⟨3, 1⟩], []⟩]⟩ ] :=
-  ⟨wfAppend_of_B _ _ (by decide), wfAppend_of_B _ _ (by decide), wfAppend_of_B _ _ (by decide), trivial⟩
+      ⟨1, 11, [⟨2, [⟨0, 4294967295⟩], []⟩,
+               ⟨3, [⟨1, 0⟩], [⟨100, ⟨1, [1]⟩, some ⟨2, [5]⟩, [7]⟩, ⟨250, ⟨1, [1, 2]⟩, none, []⟩]⟩,
+               ⟨4, [⟨3, 0⟩], [⟨50, ⟨1, [1]⟩, none, []⟩]⟩,
+               ⟨5, [⟨4, 0⟩], [⟨1, ⟨2, [5]⟩, some ⟨1, [1]⟩, [9]⟩]⟩]⟩,
+      ⟨2, 12, [⟨6, [⟨0, 4294967295⟩], [⟨5, ⟨1, [1]⟩, none, []⟩]⟩, ⟨7, [⟨3, 1⟩, ⟨5, 0⟩], []⟩]⟩ ] :=
+  ⟨wfAppend2_of_B _ _ (by decide), wfAppend2_of_B _ _ (by decide), wfAppend2_of_B _ _ (by decide), trivial⟩
 
 /-- **answers_eq_filter for type scripts** (PARTIAL as above): the exact-mode live-cell scan by TYPE
 script returns exactly the rows of the live cells whose type script is the searched one. -/
 theorem answers_eq_filter_type_partial (keep interval : Nat) (blocks : List Block)
-    (ok : ChainOK keep interval [] blocks) (q sc : Script) (bn txi io t : Nat) :
+    (ok : ChainOK2 keep interval [] blocks) (q sc : Script) (bn txi io t : Nat) :
     ((Key.cellType sc bn txi io, Val.tx t) ∈ scan (blocks.foldl (append keep interval) []) (cellPrefix false q) ∧
       (Key.cellType sc bn txi io).bytes.length = (cellPrefix false q).length + 16) ↔
     (sc = q ∧ ∃ c : Cell, get (blocks.foldl (append keep interval) []) (.outPoint ⟨t, io⟩) = some (.cell c) ∧
       c.out.type = some q ∧ c.bn = bn ∧ c.txIdx = txi) := by
   have hnd := nodup_chain keep interval blocks [] trivial
-  have hinv := typeInv_chain keep interval blocks [] typeInv_empty ok
+  have hinv := typeInv_chain2 keep interval blocks [] typeInv_empty ok
   have h := exact_cellType q sc bn txi io
   rw [mem_scan, mem_iff_get _ hnd, hinv sc bn txi io t]
   simp only [cellPrefix, Bool.false_eq_true, if_false] at *
@@ -299,59 +311,89 @@ theorem answers_eq_filter_type_partial (keep interval : Nat) (blocks : List Bloc
 
 /-! ## the transaction history written by one append -/
 
-/-- **tx lists by lock script = filter over the block** (PARTIAL: no same-block spends) -/
-theorem history_step_lock_partial (s : Store) (b : Block) (wf : WFAppend s b)
+/-- **tx lists by lock script = filter over the block** (same-block spends included: `Res` = the
+cell an input resolves to, live in the store or created earlier in the block) -/
+theorem history_step_lock_partial (s : Store) (b : Block) (wf : WFAppend2 s b)
     (fresh : ∀ (sc : Script) (txi io : Nat) (t : IoType), get s (.txLock sc b.number txi io t) = none)
     (sc : Script) (i io : Nat) (t : IoType) (id : Nat) :
     get (appendCore s b) (.txLock sc b.number i io t) = some (.tx id) ↔
       ∃ tx : Tx, b.txs[i]? = some tx ∧ id = tx.id ∧
         ((t = .output ∧ ∃ out : Output, tx.outputs[io]? = some out ∧ out.lock = sc) ∨
          (t = .input ∧ i ≠ 0 ∧ ∃ (op : OutPoint) (c : Cell), tx.inputs[io]? = some op ∧
-            get s (.outPoint op) = some (.cell c) ∧ c.out.lock = sc)) :=
-  txLock_step wf fresh sc i io t id
+            Res s b op c ∧ c.out.lock = sc)) :=
+  txLock_step2 wf fresh sc i io t id
 
-/-- **tx lists by type script = filter over the block** (PARTIAL: no same-block spends) -/
-theorem history_step_type_partial (s : Store) (b : Block) (wf : WFAppend s b)
+/-- **tx lists by type script = filter over the block** (same-block spends included) -/
+theorem history_step_type_partial (s : Store) (b : Block) (wf : WFAppend2 s b)
     (fresh : ∀ (sc : Script) (txi io : Nat) (t : IoType), get s (.txType sc b.number txi io t) = none)
     (sc : Script) (i io : Nat) (t : IoType) (id : Nat) :
     get (appendCore s b) (.txType sc b.number i io t) = some (.tx id) ↔
       ∃ tx : Tx, b.txs[i]? = some tx ∧ id = tx.id ∧
         ((t = .output ∧ ∃ out : Output, tx.outputs[io]? = some out ∧ out.type = some sc) ∨
          (t = .input ∧ i ≠ 0 ∧ ∃ (op : OutPoint) (c : Cell), tx.inputs[io]? = some op ∧
-            get s (.outPoint op) = some (.cell c) ∧ c.out.type = some sc)) :=
-  txType_step wf fresh sc i io t id
+            Res s b op c ∧ c.out.type = some sc)) :=
+  txType_step2 wf fresh sc i io t id
 
 /-- hypotheses satisfiable (the empty store, a block with an output), and a row it describes -/
 example :
     let b0 : Block := ⟨0, 10, [⟨1, [⟨0, 4294967295⟩], [⟨1000, ⟨1, [1]⟩, some ⟨2, [5]⟩, [7]⟩]⟩]⟩
-    WFAppend [] b0 ∧ (∀ (sc : Script) (txi io : Nat) (t : IoType), get [] (.txLock sc b0.number txi io t) = none) ∧
+    WFAppend2 [] b0 ∧ (∀ (sc : Script) (txi io : Nat) (t : IoType), get [] (.txLock sc b0.number txi io t) = none) ∧
       get (appendCore [] b0) (.txLock ⟨1, [1]⟩ 0 0 0 .output) = some (.tx 1) :=
-  ⟨wfAppend_of_B _ _ (by decide), fun _ _ _ _ => rfl, by decide⟩
+  ⟨wfAppend2_of_B _ _ (by decide), fun _ _ _ _ => rfl, by decide⟩
 
-/-! ## rollback ∘ append (blocks without same-block spends) -/
+/-! ## rollback ∘ append -/
 
-/-- **rollback_append** (PARTIAL: no same-block spends; `appendCore`, i.e. without an intervening
-prune). Rolling back the block just appended restores every row of every family except the
-ConsumedOutPoint residue — so every answer (live cells by lock / type script, transaction lists by
-lock / type script, and the TxHash / Header bookkeeping) — and the tip. -/
-theorem rollback_append_partial (s : Store) (b : Block) (wf : WFRollbackT s b) (hnd : NodupKeys s) :
+/-- **rollback_append** (same-block spends INCLUDED). For ANY store `s` with unique keys and ANY
+block `b` well-formed for `s` (`WFRollback2`: distinct fresh tx ids; inputs referring to the block's
+own transactions only refer to EARLIER ones; no rows of `b`'s number in `s`; header number above every
+indexed header; the lock/type live-cell indexes of `s` consistent with its OutPoint rows): rolling
+back the block just appended restores EVERY row of every family except the ConsumedOutPoint residue
+(OutPoint, CellLockScript, CellTypeScript, TxLockScript, TxTypeScript, TxHash, Header) — hence every
+answer — and the tip. PARTIAL only in that it is stated for `appendCore` (append up to the commit):
+the automatic `prune` that may run between the append and the rollback is not included. -/
+theorem rollback_append_partial (s : Store) (b : Block) (wf : WFRollback2 s b) (hnd : NodupKeys s) :
     (∀ k : Key, (∀ bn op, k ≠ .consumed bn op) → get (rollback (appendCore s b)) k = get s k) ∧
     tip (rollback (appendCore s b)) = tip s :=
-  ⟨fun k hk => rollback_append_get wf k hk, rollback_append_tip wf hnd⟩
+  ⟨fun k hk => rollback_append_get2 wf k hk, rollback_append_tip2 wf hnd⟩
 
-/-- the hypotheses are satisfiable by a non-trivial state: `s` = one block indexed, `b` spends its
-output (lock + type script) and creates two cells -/
+/-- the hypotheses are satisfiable by a non-trivial state: `s` = one block indexed; `b` spends its
+output (lock + type script), creates two cells, spends one of them in the SAME block, and that one
+again; the spent out-point is dead after the append and live again after the rollback -/
 example :
     let b0 : Block := ⟨0, 10, [⟨1, [⟨0, 4294967295⟩], [⟨1000, ⟨1, [1]⟩, some ⟨2, [5]⟩, [7]⟩]⟩]⟩
     let b1 : Block := ⟨1, 11, [⟨2, [⟨0, 4294967295⟩], []⟩,
-      ⟨3, [⟨1, 0⟩], [⟨100, ⟨1, [1]⟩, some ⟨2, [5]⟩, [7]⟩, ⟨250, ⟨1, [1, 2]⟩, none, []⟩]⟩]⟩
-    WFRollbackT (appendCore [] b0) b1 ∧ NodupKeys (appendCore [] b0) ∧
+      ⟨3, [⟨1, 0⟩], [⟨100, ⟨1, [1]⟩, some ⟨2, [5]⟩, [7]⟩, ⟨250, ⟨1, [1, 2]⟩, none, []⟩]⟩,
+      ⟨4, [⟨3, 0⟩], [⟨50, ⟨1, [1]⟩, none, []⟩]⟩,
+      ⟨5, [⟨4, 0⟩, ⟨3, 1⟩], [⟨1, ⟨2, [5]⟩, some ⟨1, [1]⟩, [9]⟩]⟩]⟩
+    WFRollback2 (appendCore [] b0) b1 ∧ NodupKeys (appendCore [] b0) ∧
       get (appendCore (appendCore [] b0) b1) (.outPoint ⟨1, 0⟩) = none ∧
       get (rollback (appendCore (appendCore [] b0) b1)) (.outPoint ⟨1, 0⟩) ≠ none := by
   intro b0 b1
-  have wf0 : WFAppend [] b0 := wfAppend_of_B _ _ (by decide)
-  refine ⟨wfRollbackT_of _ _ (by decide) (by decide) (lockInv_append _ _ wf0 lockInv_empty)
-    (typeInv_append wf0 typeInv_empty), nodup_commit _ _ trivial, by decide, by decide⟩
+  have wf0 : WFAppend2 [] b0 := wfAppend2_of_B _ _ (by decide)
+  refine ⟨wfRollback2_of _ _ (by decide) (by decide) (lockInv_append2 wf0 lockInv_empty)
+    (typeInv_append2 wf0 typeInv_empty), nodup_commit _ _ trivial, by decide, by decide⟩
+
+/-- **rollback after the FULL `append`** (commit + the automatic `prune` when
+`number % prune_interval = 0`), same-block spends included: every answer row (OutPoint,
+Cell*Script, Tx*Script) is restored, for every `keep_num` — the prune only removes ConsumedOutPoint /
+TxHash / Header rows of OLDER blocks, none of which the rollback of the tip block reads.
+`HdrDisjoint`: no stored Header row lists a transaction id of `b` (ids are unique along the chain).
+PARTIAL: the tip after such a rollback (it needs the retention hypothesis that the previous tip's
+Header row survived the prune: `keep_num ≥ 1`) is not proved here. -/
+theorem rollback_append_pruned_partial (s : Store) (b : Block) (wf : WFRollback2 s b)
+    (hd : HdrDisjoint s b) (keep interval : Nat) (k : Key) (hk : k.isAnswer = true) :
+    get (rollback (append keep interval s b)) k = get s k :=
+  rollback_append_full_answers wf hd keep interval k hk
+
+example :
+    let b0 : Block := ⟨0, 10, [⟨1, [⟨0, 4294967295⟩], [⟨1000, ⟨1, [1]⟩, some ⟨2, [5]⟩, [7]⟩]⟩]⟩
+    let b1 : Block := ⟨1, 11, [⟨2, [⟨0, 4294967295⟩], []⟩, ⟨3, [⟨1, 0⟩], [⟨100, ⟨1, [1]⟩, none, []⟩]⟩,
+      ⟨4, [⟨3, 0⟩], []⟩]⟩
+    WFRollback2 (appendCore [] b0) b1 ∧ HdrDisjoint (appendCore [] b0) b1 := by
+  intro b0 b1
+  have wf0 : WFAppend2 [] b0 := wfAppend2_of_B _ _ (by decide)
+  exact ⟨wfRollback2_of _ _ (by decide) (by decide) (lockInv_append2 wf0 lockInv_empty)
+    (typeInv_append2 wf0 typeInv_empty), by unfold HdrDisjoint; decide⟩
 
 /-! ## Lean witnesses of the other two known deviations of the code (known_findings.txt) -/
 
@@ -393,7 +435,7 @@ def sameAnswers (a b : Store) : Bool :=
 
 /-- `answers_eq_filter` on the concrete chain exBlock0, exBlock1: the answer rows are exactly the
 live cell 5.0 (created, not spent) with its lock/type index rows and the nine history rows.
-(A sanity instance with a SAME-BLOCK spend, which the general theorem below does not cover.) -/
+(A kernel-evaluated sanity instance: all answer rows of a two-block chain with a same-block spend.) -/
 theorem answers_eq_filter_instance :
     sameAnswers (appendCore (appendCore [] exBlock0) exBlock1)
       [ (.outPoint ⟨5, 0⟩, .cell ⟨1, 3, ⟨1, ⟨2, [5]⟩, some ⟨1, [1]⟩, [9]⟩⟩),
@@ -409,7 +451,7 @@ theorem answers_eq_filter_instance :
 
 /-- `rollback_append` on the same chain: rolling back exBlock1 restores every answer row and the
 tip of the state before it was appended (ConsumedOutPoint residue stays behind).
-(A sanity instance with a SAME-BLOCK spend, which the general theorem above does not cover.) -/
+(A kernel-evaluated sanity instance of the theorem above.) -/
 theorem rollback_append_instance :
     sameAnswers (rollback (appendCore (appendCore [] exBlock0) exBlock1)) (appendCore [] exBlock0) = true ∧
     tip (rollback (appendCore (appendCore [] exBlock0) exBlock1)) = tip (appendCore [] exBlock0) ∧
